@@ -44,7 +44,7 @@ REQUIRED_MONITORS = ["matrix-vs-dense-reference", "vector-vs-dense-reference", "
                      "shape-test-by-trial", "kwarg-spellings-bitwise", "threaded-equals-serial", "complex-dtype",
                      "trilinear-contraction", "with-element-same-domain", "list-matrix-vs-own-sum", "list-vector-vs-own-sum",
                      "list-scalar-vs-own-sum", "list-forms-agree"]
-REQUIRED_REACH = ["kwarg:updated-in-place", "kwarg:overrides-default", "basis:cell", "basis:cell-subset", "basis:facet-boundary", "basis:facet-subset",
+REQUIRED_REACH = ["default-parameters-on-unsorted-subset", "kwarg:updated-in-place", "kwarg:overrides-default", "basis:cell", "basis:cell-subset", "basis:facet-boundary", "basis:facet-subset",
                   "basis:facet-interior-side1", "basis:interior-side0", "basis:interior-side1", "trial!=test",
                   "kwarg:dofvector", "kwarg:discretefield", "kwarg:rawarray", "kwarg:scalar", "coef:n", "coef:h", "coef:x",
                   "bare-parameter-integrands", "trial-side0-test-side1", "oriented-facet-set", "kwarg:scalar-types",
@@ -306,6 +306,21 @@ def one_case(ctx, k, kind):
     ed_u, ed_v = ed_full_u[:, cells], ed_full_v[:, cells]
     ctx.check("domain-cells", np.array_equal(np.asarray(ub.element_dofs), ed_u) and ub.dx.shape[0] == len(cells),
               mech="basis-domain-cells", basis=bk, elem=rec.name)
+    if bk == "cell-subset":
+        # the default parameters the integrand sees (x, h) belong to the subset's cells in the caller's order: the same
+        # arrays as those of the basis on the whole mesh with the same quadrature, taken at `cells` (the dense reference
+        # below reads the subset basis' own `x`, so a mismatch between `x` and the basis functions would be invisible)
+        whole = skfem.CellBasis(mesh, rec.make(), quadrature=(ub.X, ub.W))
+        dw, ds = whole.default_parameters(), ub.default_parameters()
+        xw, xs = np.asarray(dw["x"]), np.asarray(ds["x"])
+        hw, hs = np.asarray(dw["h"]), np.asarray(ds["h"])
+        tolx = 1e-12 * (float(np.abs(xw).max()) + 1e-300)     # a wrong cell is off by the cell size, not by rounding
+        okx = xs.shape == xw[:, cells].shape and bool(np.all(np.abs(xs - xw[:, cells]) <= tolx))
+        okh = hs.shape == hw[cells].shape and bool(np.all(np.abs(hs - hw[cells]) <= 1e-12 * float(np.abs(hw).max())))
+        ctx.check("default-parameters-follow-the-subset", okx and okh, mech="cell-subset:default-x-h-order",
+                  x_ok=bool(okx), h_ok=bool(okh), elem=rec.name, sorted_subset=bool(np.all(np.diff(cells) > 0)))
+        if not np.all(np.diff(cells) > 0):
+            ctx.reached("default-parameters-on-unsorted-subset")
     ops_u, ops_v = enumerate_ops(ub), enumerate_ops(vb)
     ncomp_u = len(ub.basis[0])
     allow_field = True
